@@ -9,6 +9,7 @@ any reply packet or none, reply in time or late).  Helper lemmas: Proofs/C12, C1
 import CfVerif.Proofs.C12Flash
 import CfVerif.Proofs.C12Retry
 import CfVerif.Proofs.C12Abort
+import CfVerif.Proofs.C12Loader
 namespace CfVerif.C12
 open CfVerif
 
@@ -66,6 +67,42 @@ theorem gen_constants :
     bootHdr = 0xFF ∧ Gen.C12.uploadCmd = 0x14 ∧ Gen.C12.uploadCmd1 = 0x14 ∧ Gen.C12.writeCmd = 0x18 ∧
     Gen.C12.replyCmd = 0x18 ∧ Gen.C12.replyHeader = 0xFF ∧ Gen.C12.replyMinLen = 2 ∧
     Gen.C12.retryInit + 1 ≤ 16 := by decide
+
+/-- The geometry cache is state of the Cloader OBJECT: no class-level attributes, `self.link` / `self.targets` /
+`self.protocol_version` are created in `__init__`, nothing else rebinds or clears `targets`, `open_bootloader_uri`
+only replaces `self.link`; `request_info_update` queries only uncached ids; `_internal_flash` reads the cache of
+the loader it is called on. -/
+theorem gen_loader_state :
+    Gen.C12.cloaderClassAttrs = [] ∧
+    Gen.C12.cloaderInit = ["self.link = None", "self.targets = {}", "self.protocol_version = 255"] ∧
+    Gen.C12.targetsRebinds = ["__init__"] ∧ Gen.C12.openLinkAssigns = ["self.link"] ∧
+    Gen.C12.requestInfoBody = ["if target_id not in self.targets:\n    self._update_info(target_id)",
+      "if self._info_cb:\n    self._info_cb.call(self.targets[target_id])", "return self.targets[target_id]"] ∧
+    Gen.C12.checkLinkTests = ["self._update_info(target_id)", "self._in_boot_cb", "self._info_cb"] ∧
+    Gen.C12.checkLinkDefaults = ["255"] ∧
+    Gen.C12.flashTargetInfo = ["self._cload.targets[TargetTypes.from_string(artifact.target.target)]"] :=
+  ⟨rfl, rfl, rfl, rfl, rfl, rfl, rfl, rfl⟩
+
+/-- `_update_info`: request `(target_id, 0x10)`, resend on every timed-out receive, virtual time budget, reply test,
+layout of the reply and which field goes where, the mapping query. -/
+theorem gen_update_info :
+    Gen.C12.infoRequestData = ["(target_id, 16)"] ∧ Gen.C12.infoCmd = 0x10 ∧
+    Gen.C12.infoLoopTest = "time.time() - ts < timeout" ∧ 0 < Gen.C12.infoRecvWait ∧
+    Gen.C12.infoSends = ["self.link.send_packet(pk)", "self.link.send_packet(pk)"] ∧
+    Gen.C12.infoMatchFmt = "<BB" ∧ Gen.C12.infoMatchArgs = ["answer.data[0:2]"] ∧
+    Gen.C12.infoFmt = "BBHHHH" ∧ Gen.C12.infoArgs = ["answer.data[0:10]"] ∧
+    Gen.C12.infoCpuidArgs = ["answer.data[10:22]"] ∧ Gen.C12.infoCpuidFmt = "'B' * 12" ∧
+    Gen.C12.infoFields = ["addr = target_id", "page_size = tab[2]", "buffer_pages = tab[3]", "flash_pages = tab[4]",
+      "start_page = tab[5]", "protocol_version = answer.data[22]"] ∧
+    Gen.C12.infoReturns = ["True", "False"] ∧
+    Gen.C12.mappingIO = ["self.link.send_packet(pk)", "self.link.receive_packet(2)"] ∧
+    Gen.C12.targetSTM32 = 0xFF ∧ Gen.C12.targetNRF51 = 0xFE := by
+  refine ⟨rfl, rfl, rfl, by decide, rfl, rfl, rfl, rfl, rfl, rfl, rfl, rfl, rfl, rfl, rfl, rfl⟩
+
+theorem gen_update_info_tests : Gen.C12.infoIfTests.take 4 = ["answer is None",
+    "answer and answer.header == 255 and (struct.unpack('<BB', answer.data[0:2]) == (target_id, 16))",
+    "target_id not in self.targets", "len(answer.data) > 22"] ∧
+    Gen.C12.infoIfTests.getLast? = some "self.protocol_version == 16 and target_id == TargetTypes.STM32" := ⟨rfl, rfl⟩
 
 /-! ## The property -/
 
@@ -172,6 +209,61 @@ theorem abort_on_failure (g : Geom) (tid : Nat) (image : List UInt8) (ov : Optio
   cases (refRun tid (Gen.C12.retryInit + 1) Gen.C12.uploadFlushAt g S image
       (nPages image.length g.pageSize) 0 0 L.st.script).2 <;> rfl
 
+/-! ### where the geometry comes from: several loader objects, several connections, several copters -/
+
+/-- the world at the start of a history: copters that answer get-info genuinely (scripts may lose, delay or
+interleave unrelated packets), no loader objects yet -/
+structure StartOk (w0 : World) : Prop where
+  noLoaders : w0.loaders = []
+  copters : ∀ cop ∈ w0.copters, CopterOk cop.geomOf cop.proto cop
+
+/-- **The geometry used is the one reported on the connection it was read on.**  For EVERY history of operations
+(new loader objects, opening / closing links to any copter, `_update_info`, `request_info_update`,
+`check_link_and_get_info`, `_internal_flash`, in any order and interleaving over any number of loaders and copters):
+every geometry a loader holds for a target id - hence the geometry `_internal_flash` uses - is exactly what the copter
+recorded for that cache entry (the copter this loader was connected to when it read the entry) reports for that id.
+No entry ever comes from another loader object or from a copter this loader was not connected to. -/
+theorem geometry_from_own_connection (w0 : World) (h0 : StartOk w0) (fuel : Nat) (ops : List HOp)
+    (hops : ∀ op ∈ ops, op.TidOk) (k : Nat) (ls : LoaderSt)
+    (hk : (World.run fuel w0 ops).1.loaders[k]? = some ls) (key : Nat) (g : Geom)
+    (hg : lookupT ls.ld.targets key = some g) :
+    ∃ c cop, lookupN ls.readFrom key = some c ∧ w0.copters[c]? = some cop ∧ cop.geomOf key = some g := by
+  have hw0 : WorldOk (fun c t => (w0.copters[c]?).bind (·.geomOf t)) (fun c => (w0.copters[c]?).bind (·.proto)) w0 := by
+    refine ⟨?_, (by rw [h0.noLoaders]; intro ls hls; cases hls), ?_⟩
+    · intro c cop hc
+      have := h0.copters cop (List.mem_of_getElem? hc)
+      simpa [hc] using this
+    · intro c t g hgt
+      cases hc : w0.copters[c]? with
+      | none => simp [hc] at hgt
+      | some cop =>
+        simp only [hc, Option.bind_some] at hgt
+        have hwf := (h0.copters cop (List.mem_of_getElem? hc)).wf
+        simp only [Copter.geomOf, Option.map_eq_some_iff] at hgt
+        obtain ⟨ct, hf, rfl⟩ := hgt
+        obtain ⟨hm, ht, _⟩ := find_some hf
+        have := hwf ct hm
+        rw [ht] at this
+        exact ⟨this.1, this.2.2.1, this.2.2.2.1, this.2.2.2.2.1, this.2.2.2.2.2⟩
+  have hw := run_ok fuel ops w0 hw0 hops
+  obtain ⟨c, hc, hgc⟩ := (hw.loaders ls (List.mem_of_getElem? hk)).aligned.lookup key g hg
+  cases hcop : w0.copters[c]? with
+  | none => simp [hcop] at hgc
+  | some cop => exact ⟨c, cop, hc, hcop, by simpa [hcop] using hgc⟩
+
+/-- In particular: if the entry for `key` was read on the connection the loader is using now, `_internal_flash`
+runs with the geometry the connected copter reports for `key`. -/
+theorem flash_uses_geometry_of_this_connection (w0 : World) (h0 : StartOk w0) (fuel : Nat) (ops : List HOp)
+    (hops : ∀ op ∈ ops, op.TidOk) (k : Nat) (ls : LoaderSt)
+    (hk : (World.run fuel w0 ops).1.loaders[k]? = some ls) (key : Nat) (g : Geom)
+    (hg : lookupT ls.ld.targets key = some g) (c : Nat) (hconn : ls.conn = some c)
+    (hfresh : lookupN ls.readFrom key = ls.conn) :
+    ∃ cop, w0.copters[c]? = some cop ∧ cop.geomOf key = some g := by
+  obtain ⟨c', cop, h1, h2, h3⟩ := geometry_from_own_connection w0 h0 fuel ops hops k ls hk key g hg
+  rw [hfresh, hconn] at h1
+  cases h1
+  exact ⟨cop, h2, h3⟩
+
 /-! ### the reference semantics says what the clause says -/
 
 /-- a flush transmits its command at most `tries` times -/
@@ -264,5 +356,36 @@ example : (refRun 255 (Gen.C12.retryInit + 1) 24 exGeom 2 exImage 5 0 0 exScript
 example : ((uploadBuffer (targetPeer 255) exLink 255 1 0 (List.replicate 50 7)).1.sent.map (·.data.length)).all (· ≤ 31) ∧
     ((uploadBuffer (targetPeer 255) exLink 255 1 0 (List.replicate 50 7)).1.sent.map (·.data.length - 6)).sum = 50 := by
   decide
+
+/-! ### several loaders and the known finding D26 -/
+
+def exCopter (nrfStart : Nat) : Copter :=
+  { targets := [⟨255, ⟨255, 8, 2, 40, 3⟩, exTarget⟩, ⟨254, ⟨254, 8, 1, 30, nrfStart⟩, exTarget⟩],
+    proto := some 16, infoScript := [], lateQ := [] }
+def exWorld : World := { copters := [exCopter 10, exCopter 14], loaders := [] }
+
+example : StartOk exWorld := by
+  refine ⟨rfl, ?_⟩
+  intro cop h
+  simp only [exWorld, List.mem_cons, List.not_mem_nil, or_false] at h
+  rcases h with rfl | rfl <;>
+  · refine ⟨rfl, rfl, ?_, (by intro o ho; cases ho), (by intro p hp; cases hp)⟩
+    intro ct hct
+    simp only [exCopter, List.mem_cons, List.not_mem_nil, or_false] at hct
+    rcases hct with rfl | rfl <;> decide
+
+/-- two loader objects, one per copter: each reads and uses its own copter's nRF51 geometry -/
+example : (World.run 50 exWorld [.new, .openLink 0 0, .check 0, .request 0 254, .new, .openLink 1 1, .check 1,
+      .request 1 254]).2 =
+    [.unit, .unit, .bool true, .geom ⟨254, 8, 1, 30, 10⟩, .unit, .unit, .bool true, .geom ⟨254, 8, 1, 30, 14⟩] := by decide
+
+/-- **Known finding D26 (the code as it is).**  ONE loader object re-connected to a copter whose nRF51 geometry
+differs: `check_link_and_get_info` refreshes the STM32 entry, but `request_info_update(0xFE)` answers from the
+cache, so the geometry `_internal_flash` would use (start page 10) is not the one the connected copter reports (14).
+`geometry_from_own_connection` is the exact side condition: the entry is genuine for the copter it was read from. -/
+theorem stale_cache_counterexample :
+    (World.run 50 exWorld [.new, .openLink 0 0, .check 0, .request 0 254, .closeLink 0, .openLink 0 1, .check 0,
+      .request 0 254]).2.getLast? = some (.geom ⟨254, 8, 1, 30, 10⟩) ∧
+    (exCopter 14).geomOf 254 = some ⟨254, 8, 1, 30, 14⟩ := by decide
 
 end CfVerif.C12
